@@ -127,7 +127,61 @@ def main(ctx, replay=None):
             if bad:
                 ctx.violation(f"{s}: fill from {case['supplied']} -> {bad}", {**case, "got": got, "expected": exp}, {**sig, "clause": "fill_value"})
         ctx.sample({"system": s, "dim": e["dim"], "smallest_sufficient": [SYMS[n - 1] for n in sorted(cand[small[0]])]}, limit=9)
+    noise_level_drop(ctx, exports, suff, rng, fill_cij)
     elast_data_path(ctx, exports, suff, rng)
+
+
+def noise_level_drop(ctx, exports, suff, rng, fill_cij):
+    """A drop tolerance raised to a noise level (0.5 / 1 GPa): an allowed component that is below it at SOME volumes only is a value like any
+    other - supplied values stay, its dependent partners are generated from it at every volume; only columns below it at ALL volumes go."""
+    import pandas
+    for s in fillspec.SYSTEMS:
+        if s == "triclinic":
+            continue
+        e = exports[s]
+        null = [[Fraction(x[0], x[1]) for x in v] for v in e["null"]]
+        done = 0
+        for _try in range(12):
+            if done >= (2 if ctx.tier == "quick" else 12):
+                break
+            atol = float(rng.choice([0.5, 1.0]))
+            nrows = int(rng.integers(2, 5))
+            j = int(rng.integers(0, len(null)))
+            small_at = int(rng.integers(0, nrows))
+            rows = []
+            for r in range(nrows):
+                co = [Fraction(int(rng.integers(-9, 10)) or 1, int(rng.integers(1, 5))) * 40 for _ in null]
+                if r == small_at:
+                    co[j] = Fraction(int(rng.integers(1, 90)) * int(rng.choice([-1, 1])), 1000)      # |.| < 0.09: far below the tolerance
+                rows.append([sum(c * vec[n] for c, vec in zip(co, null)) for n in range(21)])
+            mx = [max(abs(float(r[n])) for r in rows) for n in range(21)]
+            if any(atol / 4 < m < atol * 4 for m in mx):
+                continue                                     # a column near the tolerance: which side it falls on is not the point here
+            if not any(0 < abs(float(rows[small_at][n])) < atol / 4 < atol * 4 < mx[n] for n in range(21)):
+                continue
+            S = suff[s][int(rng.integers(0, len(suff[s])))]
+            df = pandas.DataFrame({SYMS[n - 1]: [float(r[n - 1]) for r in rows] for n in sorted(S)})
+            case = {"system": s, "supplied": [SYMS[n - 1] for n in sorted(S)], "rows": nrows, "drop_atol": atol, "small_at_row": small_at}
+            ctx.count(case)
+            done += 1
+            try:
+                out = fill_cij(df.copy(), s, drop_atol=atol)
+            except BaseException as ex:
+                ctx.violation(f"{s}: fill with drop_atol={atol} of a consistent sufficient table raised {ex!r}", case, {"system": s, "clause": "raises", "exc": type(ex).__name__})
+                continue
+            exp = {SYMS[n]: [float(r[n]) for r in rows] for n in range(21) if mx[n] > atol}
+            got = {c: out[c].to_numpy(dtype=float).tolist() for c in out.columns}
+            scale = max(mx)
+            bad = None
+            if set(got) != set(exp):
+                bad = f"columns {sorted(set(got) ^ set(exp))} present/absent wrongly"
+            else:
+                for c in exp:
+                    if not numpy.allclose(got[c], exp[c], rtol=0, atol=1e-9 * scale):
+                        bad = f"{c} = {got[c]} expected {exp[c]}"
+                        break
+            if bad:
+                ctx.violation(f"{s}: fill with drop_atol={atol} from {case['supplied']} -> {bad}", {**case, "got": got, "expected": exp}, {"system": s, "clause": "fill_value_drop_atol"})
 
 
 def elast_data_path(ctx, exports, suff, rng):
@@ -140,19 +194,25 @@ def elast_data_path(ctx, exports, suff, rng):
             continue
         e = exports[s]
         tensors = [[Fraction(x[0], x[1]) for x in t] for t in e["tensors"]]
-        S = min(suff[s], key=len)
-        vols = [ElastVolumeData(100.0 - 5 * i, OrderedDict((c_(SYMS[n - 1][1:]), float(t[n - 1])) for n in sorted(S))) for i, t in enumerate(tensors)]
-        data = ElastData(100.0, 3, 50.0, vols, [])
-        ctx.count({"system": s, "path": "elast_data"})
-        try:
-            apply_symetry_on_elast_data(data, {"system": s})
-        except BaseException as ex:
-            ctx.violation(f"{s}: apply_symetry_on_elast_data raised {ex!r}", {"system": s}, {"system": s, "clause": "elast_data_raises"})
-            continue
-        for i, t in enumerate(tensors):
-            exp = {c_(SYMS[n][1:]): float(t[n]) for n in range(21) if any(tt[n] != 0 for tt in tensors)}
-            got = dict(data.volumes[i].static_elastic_modulus)
-            if set(got) != set(exp) or any(not abs(got[k] - exp[k]) <= 1e-9 * 100 for k in exp) or data.volumes[i].volume != 100.0 - 5 * i:
-                ctx.violation(f"{s}: apply_symetry_on_elast_data row {i} differs from the invariant tensor",
-                              {"system": s, "got": {str(k): v for k, v in got.items()}}, {"system": s, "clause": "elast_data_value"})
+        sym = {"system": s}                                   # ONE settings dictionary for every table of this system, as a batch run has it
+        order = sorted(suff[s], key=len)
+        for use, S in enumerate([order[0], order[min(1, len(order) - 1)], order[0]]):
+            vols = [ElastVolumeData(100.0 - 5 * i, OrderedDict((c_(SYMS[n - 1][1:]), float(t[n - 1])) for n in sorted(S))) for i, t in enumerate(tensors)]
+            data = ElastData(100.0, 3, 50.0, vols, [])
+            ctx.count({"system": s, "path": "elast_data", "use_of_the_settings": use + 1, "supplied": len(S)})
+            try:
+                apply_symetry_on_elast_data(data, sym)
+            except BaseException as ex:
+                ctx.violation(f"{s}: apply_symetry_on_elast_data raised {ex!r} (use {use + 1} of one settings dictionary)", {"system": s}, {"system": s, "clause": "elast_data_raises"})
+                break
+            bad = False
+            for i, t in enumerate(tensors):
+                exp = {c_(SYMS[n][1:]): float(t[n]) for n in range(21) if any(tt[n] != 0 for tt in tensors)}
+                got = dict(data.volumes[i].static_elastic_modulus)
+                if set(got) != set(exp) or any(not abs(got[k] - exp[k]) <= 1e-9 * 100 for k in exp) or data.volumes[i].volume != 100.0 - 5 * i:
+                    ctx.violation(f"{s}: apply_symetry_on_elast_data row {i} differs from the invariant tensor (use {use + 1} of one settings dictionary)",
+                                  {"system": s, "use": use + 1, "got": {str(k): v for k, v in got.items()}}, {"system": s, "clause": "elast_data_value"})
+                    bad = True
+                    break
+            if bad:
                 break
